@@ -97,4 +97,162 @@ theorem kint_mem_box (g : G3) (hg : GPos g) (k : K3) (hr : Reduced k) (h : onGri
       exact_mod_cast this
   exact ⟨key _ _ _ hg.1 x0 x1 ha, key _ _ _ hg.2.1 y0 y1 hb, key _ _ _ hg.2.2 z0 z1 hc⟩
 
+/-! ### the selection loop -/
+
+theorem selectFrom_sublist (g : G3) : ∀ (l : List (K3 × Nat)) (seen : List I3), (selectFrom g l seen).Sublist l
+  | [], _ => by simp [selectFrom]
+  | (k, i) :: rest, seen => by
+    unfold selectFrom
+    split
+    · exact (selectFrom_sublist g rest _).cons_cons _
+    · exact (selectFrom_sublist g rest _).cons _
+
+/-- every selected point is on the grid and was not seen before -/
+theorem selectFrom_mem (g : G3) : ∀ (l : List (K3 × Nat)) (seen : List I3), ∀ p ∈ selectFrom g l seen,
+    onGrid g p.1 = true ∧ kint g p.1 ∉ seen
+  | [], _ => by simp [selectFrom]
+  | (k, i) :: rest, seen => by
+    intro p hp
+    unfold selectFrom at hp
+    split at hp
+    · rename_i hc
+      simp only [Bool.and_eq_true, Bool.not_eq_true', List.contains_eq_mem, decide_eq_false_iff_not] at hc
+      rcases List.mem_cons.mp hp with rfl | hp
+      · exact hc
+      · have := selectFrom_mem g rest _ p hp
+        exact ⟨this.1, fun h => this.2 (List.mem_cons_of_mem _ h)⟩
+    · exact selectFrom_mem g rest _ p hp
+
+/-- the integer triples of the selected points are pairwise different -/
+theorem selectFrom_nodup (g : G3) : ∀ (l : List (K3 × Nat)) (seen : List I3),
+    ((selectFrom g l seen).map (fun p => kint g p.1)).Nodup
+  | [], _ => by simp [selectFrom]
+  | (k, i) :: rest, seen => by
+    unfold selectFrom
+    split
+    · rw [List.map_cons, List.nodup_cons]
+      refine ⟨?_, selectFrom_nodup g rest _⟩
+      intro hmem
+      obtain ⟨p, hp, hpe⟩ := List.mem_map.mp hmem
+      have := (selectFrom_mem g rest _ p hp).2
+      apply this; rw [hpe]; exact List.mem_cons_self
+    · exact selectFrom_nodup g rest _
+
+/-- every on-grid point of the input has its integer triple among the seen or the selected ones -/
+theorem selectFrom_covers (g : G3) : ∀ (l : List (K3 × Nat)) (seen : List I3), ∀ p ∈ l, onGrid g p.1 = true →
+    kint g p.1 ∈ seen ∨ kint g p.1 ∈ (selectFrom g l seen).map (fun p => kint g p.1)
+  | [], _ => by simp
+  | (k, i) :: rest, seen => by
+    intro p hp hon
+    unfold selectFrom
+    split
+    · rcases List.mem_cons.mp hp with rfl | hp
+      · right; simp
+      · rcases selectFrom_covers g rest (kint g k :: seen) p hp hon with h | h
+        · rcases List.mem_cons.mp h with h | h
+          · right; rw [h]; simp
+          · left; exact h
+        · right; rw [List.map_cons]; exact List.mem_cons_of_mem _ h
+    · rename_i hc
+      rcases List.mem_cons.mp hp with rfl | hp
+      · left
+        simp only [Bool.and_eq_true, Bool.not_eq_true', List.contains_eq_mem, decide_eq_false_iff_not, not_and,
+          not_not] at hc
+        exact hc hon
+      · exact selectFrom_covers g rest _ p hp hon
+
+/-! ### counting -/
+
+/-- `ks` lists exactly the points of the Γ-centred mesh `N` (coordinates in `[0,1)`), in any order,
+    possibly with repetitions -/
+def IsMesh (N : G3) (ks : List K3) : Prop :=
+  (∀ k ∈ ks, ∃ i j l, i < N.1 ∧ j < N.2.1 ∧ l < N.2.2 ∧ k = meshPt N i j l) ∧
+  (∀ i j l, i < N.1 → j < N.2.1 → l < N.2.2 → meshPt N i j l ∈ ks)
+
+theorem meshPt_reduced (N : G3) (i j l : Nat) (hi : i < N.1) (hj : j < N.2.1) (hl : l < N.2.2) :
+    Reduced (meshPt N i j l) := by
+  have key : ∀ (a n : Nat), a < n → (0 : Rat) ≤ (a : Rat) / n ∧ (a : Rat) / n < 1 := by
+    intro a n h
+    have hn : (0 : Rat) < n := by exact_mod_cast (by omega : 0 < n)
+    have ha : (a : Rat) < n := by exact_mod_cast h
+    exact ⟨by positivity, (div_lt_one hn).2 ha⟩
+  exact ⟨key i _ hi, key j _ hj, key l _ hl⟩
+
+theorem isMesh_reduced (N : G3) (ks : List K3) (h : IsMesh N ks) : ∀ k ∈ ks, Reduced k := by
+  intro k hk
+  obtain ⟨i, j, l, hi, hj, hl, rfl⟩ := h.1 k hk
+  exact meshPt_reduced N i j l hi hj hl
+
+/-- the selected `(k, i)` pairs and their integer triples -/
+def selPairs (g : G3) (ks : List K3) : List (K3 × Nat) := selectFrom g ks.zipIdx []
+def selKints (g : G3) (ks : List K3) : List I3 := (selPairs g ks).map (fun p => kint g p.1)
+
+theorem select_eq (g : G3) (ks : List K3) : select g ks = (selPairs g ks).map (·.2) := rfl
+
+theorem length_select (g : G3) (ks : List K3) : (select g ks).length = (selKints g ks).length := by
+  simp [select_eq, selKints]
+
+theorem selPairs_mem (g : G3) (ks : List K3) (p : K3 × Nat) (hp : p ∈ selPairs g ks) :
+    ks[p.2]? = some p.1 ∧ p.1 ∈ ks ∧ onGrid g p.1 = true := by
+  have h1 : p ∈ ks.zipIdx := (selectFrom_sublist g _ _).subset hp
+  have h2 : ks[p.2]? = some p.1 := List.mem_zipIdx_iff_getElem?.1 h1
+  exact ⟨h2, List.mem_of_getElem? h2, (selectFrom_mem g _ _ p hp).1⟩
+
+theorem selKints_nodup (g : G3) (ks : List K3) : (selKints g ks).Nodup := selectFrom_nodup g _ _
+
+theorem selKints_covers (g : G3) (ks : List K3) (k : K3) (hk : k ∈ ks) (hon : onGrid g k = true) :
+    kint g k ∈ selKints g ks := by
+  obtain ⟨i, hki⟩ := List.mem_iff_getElem?.1 hk
+  have hm : (k, i) ∈ ks.zipIdx := List.mem_zipIdx_iff_getElem?.2 hki
+  rcases selectFrom_covers g ks.zipIdx [] (k, i) hm hon with h | h
+  · simp at h
+  · exact h
+
+theorem selKints_subset_box (g : G3) (hg : GPos g) (ks : List K3) (hr : ∀ k ∈ ks, Reduced k) :
+    (selKints g ks).toFinset ⊆ box g := by
+  intro x hx
+  rw [List.mem_toFinset] at hx
+  obtain ⟨p, hp, rfl⟩ := List.mem_map.mp hx
+  obtain ⟨_, hmem, hon⟩ := selPairs_mem g ks p hp
+  exact kint_mem_box g hg p.1 (hr _ hmem) hon
+
+theorem length_select_le (g : G3) (hg : GPos g) (ks : List K3) (hr : ∀ k ∈ ks, Reduced k) :
+    (select g ks).length ≤ numGrid g := by
+  rw [length_select, ← List.toFinset_card_of_nodup (selKints_nodup g ks), ← card_box]
+  exact Finset.card_le_card (selKints_subset_box g hg ks hr)
+
+theorem length_select_complete (g : G3) (hg : GPos g) (ks : List K3) (hr : ∀ k ∈ ks, Reduced k)
+    (hall : ∀ i j l, i < g.1 → j < g.2.1 → l < g.2.2 → meshPt g i j l ∈ ks) :
+    (select g ks).length = numGrid g := by
+  apply le_antisymm (length_select_le g hg ks hr)
+  rw [length_select, ← List.toFinset_card_of_nodup (selKints_nodup g ks), ← card_box]
+  apply Finset.card_le_card
+  intro x hx
+  rw [mem_box] at hx
+  obtain ⟨⟨a0, a1⟩, ⟨b0, b1⟩, ⟨c0, c1⟩⟩ := hx
+  rw [List.mem_toFinset]
+  have hm := hall x.1.toNat x.2.1.toNat x.2.2.toNat (by omega) (by omega) (by omega)
+  have := selKints_covers g ks _ hm (onGrid_meshPt g hg _ _ _)
+  rw [kint_meshPt g hg] at this
+  have e : ((x.1.toNat : Int), (x.2.1.toNat : Int), (x.2.2.toNat : Int)) = x := by
+    rw [Int.toNat_of_nonneg a0, Int.toNat_of_nonneg b0, Int.toNat_of_nonneg c0]
+  rwa [e] at this
+
+theorem length_select_missing (g : G3) (hg : GPos g) (ks : List K3) (hr : ∀ k ∈ ks, Reduced k)
+    (i j l : Nat) (hi : i < g.1) (hj : j < g.2.1) (hl : l < g.2.2) (hmiss : meshPt g i j l ∉ ks) :
+    (select g ks).length < numGrid g := by
+  rw [length_select, ← List.toFinset_card_of_nodup (selKints_nodup g ks), ← card_box]
+  apply Finset.card_lt_card
+  refine ⟨selKints_subset_box g hg ks hr, ?_⟩
+  intro hsub
+  have hin : ((i : Int), (j : Int), (l : Int)) ∈ box g := by
+    rw [mem_box]; simp only; omega
+  have := hsub hin
+  rw [List.mem_toFinset] at this
+  obtain ⟨p, hp, hpe⟩ := List.mem_map.mp this
+  obtain ⟨_, hmem, hon⟩ := selPairs_mem g ks p hp
+  rw [← kint_meshPt g hg] at hpe
+  have := kint_inj g hg _ _ hon (onGrid_meshPt g hg i j l) hpe
+  exact hmiss (this ▸ hmem)
+
 end WB.C23
